@@ -19,6 +19,7 @@ def run(tier):
     b = _build()
     c.builds_done()
     plan = [("reader L<=2, full alphabet", ["--mode", "reader", "--lines", 2]), ("validators, <=3 edges", ["--mode", "validators", "--max-edges", 3]),
+            ("validators on large degrees: two hubs of degree 1..41 and around 64 / 128 / 256, one offending edge (parallel copy in either orientation, self-loop, weight 0) at every position of the edge sequence", ["--mode", "validators-large"]),
             ("reader into other graph types (edge_weight behind an edge_index property; list-based out-edges with vertex and edge properties): L<=2, 4 weight spellings, <=1 comment line",
              ["--mode", "reader", "--lines", 2, "--nweights", 4, "--max-comments", 1, "--graph-type", 1]),
             ("reader into other graph types, second type", ["--mode", "reader", "--lines", 2, "--nweights", 4, "--max-comments", 1, "--graph-type", 2]),
